@@ -8,7 +8,8 @@ A = dict(
     A5p="A5' the Frobenius of the tower is the coefficient-wise map with the constants gamma^((q^k-1)/d)",
     A7="A7 Lagrange in Fq12*: f != 0 => f^(q^12-1) = 1",
     A8="A8 Euler's criterion in Fq / Fq2",
-    D_FQ="contracts of Fq (add/sub/mul/square/negate/double/inverse/is_zero/eq, canonical range) are assumed in this unit; they are the statements of the C08 unit",
+    D_FQ="contracts of Fq (add/sub/mul/square/negate/double/inverse/is_zero/eq, canonical range) enter this unit as stubs over an abstract value; they are the statements proved in unit mont (C08) "
+         "for the real derive-generated code with value mv(x) = limbs * R^-1 mod q - except inverse (and pow / sqrt / legendre where used), which remain assumed",
     TOOLS="Verus 0.2026.09.13 + Z3 4.16, rustc -Zunpretty=expanded and its pretty printer, the slicing/weaving rules R0-R7 of DESIGN.md 2.2",
 )
 
